@@ -122,3 +122,689 @@ Qed.
 Print Assumptions bigmin_spec_2d_3bit.
 Print Assumptions bigmin_spec_3d_2bit.
 Print Assumptions bigmin_spec_4d_1bit.
+
+(* ==== (b) the general BIGMIN specification, for every width ==== *)
+
+(* ---- comparing non-negative integers through their bits ---- *)
+Lemma lt_by_bit a c k : 0 <= a -> 0 <= c -> 0 <= k ->
+  (forall k', k < k' -> Z.testbit a k' = Z.testbit c k') ->
+  Z.testbit a k = false -> Z.testbit c k = true -> a < c.
+Proof.
+  intros Ha Hc Hk Hhi Hak Hck.
+  assert (Eh : a / 2 ^ (k + 1) = c / 2 ^ (k + 1)).
+  { apply Z.bits_inj'. intros j Hj. rewrite !Z.div_pow2_bits by lia. apply Hhi. lia. }
+  apply Z.testbit_false in Hak; [|lia]. apply Z.testbit_true in Hck; [|lia].
+  assert (Hp : 0 < 2 ^ k) by (apply Z.pow_pos_nonneg; lia).
+  assert (E2 : forall z, z / 2 ^ (k + 1) = z / 2 ^ k / 2).
+  { intros z. rewrite Z.pow_add_r by lia. change (2 ^ 1) with 2. rewrite Z.div_div by lia. reflexivity. }
+  rewrite !E2 in Eh.
+  pose proof (Z.div_mod (a / 2 ^ k) 2 ltac:(lia)) as Da.
+  pose proof (Z.div_mod (c / 2 ^ k) 2 ltac:(lia)) as Dc.
+  pose proof (Z.div_mod a (2 ^ k) ltac:(lia)) as Ea.
+  pose proof (Z.div_mod c (2 ^ k) ltac:(lia)) as Ec.
+  pose proof (Z.mod_pos_bound a (2 ^ k) Hp). pose proof (Z.mod_pos_bound c (2 ^ k) Hp).
+  nia.
+Qed.
+
+Lemma le_by_dom a c : 0 <= c ->
+  (forall k, 0 <= k -> Z.testbit a k = true -> Z.testbit c k = true) -> a <= c.
+Proof.
+  intros Hc H.
+  assert (E : Z.ldiff a c = 0).
+  { apply Z.bits_inj'. intros k Hk. rewrite Z.ldiff_spec, Z.bits_0.
+    destruct (Z.testbit a k) eqn:Ea; [|reflexivity]. rewrite (H k Hk Ea). reflexivity. }
+  pose proof (Z.sub_nocarry_ldiff c a E) as Hs.
+  assert (0 <= Z.ldiff c a); [|lia].
+  apply Z.ldiff_nonneg. left. exact Hc.
+Qed.
+
+(* the highest differing bit of x < c *)
+Lemma hdb x c : 0 <= x < c -> exists k, 0 <= k /\ Z.testbit x k = false /\ Z.testbit c k = true /\
+  forall k', k < k' -> Z.testbit x k' = Z.testbit c k'.
+Proof.
+  intros Hxc. set (d := Z.lxor x c).
+  assert (Hd0 : 0 <= d) by (apply Z.lxor_nonneg; lia).
+  assert (Hd : 0 < d).
+  { destruct (Z.eq_dec d 0) as [E|]; [|lia]. apply Z.lxor_eq in E. lia. }
+  pose proof (Z.bit_log2 d Hd) as Hb. pose proof (Z.log2_nonneg d) as Hl.
+  assert (Hab : forall k', Z.log2 d < k' -> Z.testbit x k' = Z.testbit c k').
+  { intros k' Hk'. pose proof (Z.bits_above_log2 d k' Hd0 Hk') as Hz.
+    unfold d in Hz. rewrite Z.lxor_spec in Hz. destruct (Z.testbit x k'), (Z.testbit c k'); cbn in Hz; congruence. }
+  exists (Z.log2 d). split; [lia|]. unfold d in Hb at 1. rewrite Z.lxor_spec in Hb.
+  destruct (Z.testbit x (Z.log2 d)) eqn:Ex, (Z.testbit c (Z.log2 d)) eqn:Ec; cbn in Hb; try discriminate.
+  - exfalso. pose proof (lt_by_bit c x (Z.log2 d) ltac:(lia) ltac:(lia) Hl) as Hlt.
+    specialize (Hlt ltac:(intros k' Hk'; symmetry; apply Hab; exact Hk') Ec Ex). lia.
+  - split; [reflexivity|]. split; [reflexivity|exact Hab].
+Qed.
+
+Definition mv (m : mcfg) (i c : Z) : Z := Z.land c (fmask m i).
+Definition vcode (m : mcfg) (c : Z) : Prop := 0 <= c < 2 ^ (m_dims m * field_bits m).
+Definition inbox (m : mcfg) (zn zx c : Z) : Prop :=
+  forall i, 0 <= i < m_dims m -> mv m i zn <= mv m i c <= mv m i zx.
+Definition agree_above (b a c : Z) : Prop := forall k, b < k -> Z.testbit a k = Z.testbit c k.
+
+Section BM.
+  Variable m : mcfg.
+  Hypothesis Hwf : wf_mcfg m.
+  Local Notation D := (m_dims m).
+  Local Notation F := (field_bits m).
+  Local Notation N := (m_dims m * field_bits m).
+
+  Lemma N_pos : 1 <= N.
+  Proof. pose proof (D_pos m Hwf). pose proof (F_pos m Hwf). nia. Qed.
+
+  Lemma fmask_testbit i k : 0 <= i < D -> 0 <= k ->
+    Z.testbit (fmask m i) k = (k mod D =? i) && (k <? N).
+  Proof.
+    intros Hi Hk. pose proof (D_pos m Hwf) as HD. pose proof (F_pos m Hwf) as HF.
+    destruct (split_pos D k HD Hk) as (E & Hq & Hr).
+    rewrite E at 1. rewrite (fmask_bits m Hwf) by lia. f_equal.
+    destruct (Z_lt_ge_dec k N) as [Hlt|Hge].
+    - assert (k / D < F) by (apply Z.div_lt_upper_bound; lia). lia.
+    - assert (F <= k / D) by (apply Z.div_le_lower_bound; lia). lia.
+  Qed.
+
+  Lemma mv_bits i c k : 0 <= i < D -> 0 <= k ->
+    Z.testbit (mv m i c) k = Z.testbit c k && ((k mod D =? i) && (k <? N)).
+  Proof. intros Hi Hk. unfold mv. rewrite Z.land_spec, fmask_testbit by lia. reflexivity. Qed.
+
+  Lemma mv_nonneg i c : 0 <= i < D -> 0 <= mv m i c.
+  Proof. intros Hi. unfold mv. apply Z.land_nonneg. right. apply (fmask_nonneg m Hwf). lia. Qed.
+
+  Lemma box_inbox zn zx c : box_zcontains m zn zx c = true <-> inbox m zn zx c.
+  Proof.
+    pose proof (D_pos m Hwf). unfold box_zcontains, inbox, mv. rewrite forallb_forall. split.
+    - intros Hb i Hi. specialize (Hb i). rewrite in_zseq in Hb. specialize (Hb ltac:(lia)).
+      cbv zeta in Hb. rewrite (shl_selector m Hwf), (wrap64_fmask m Hwf) in Hb by lia. lia.
+    - intros Hc i Hi. rewrite in_zseq in Hi. specialize (Hc i ltac:(lia)).
+      cbv zeta. rewrite (shl_selector m Hwf), (wrap64_fmask m Hwf) by lia. lia.
+  Qed.
+
+  Lemma vcode_high c k : vcode m c -> N <= k -> Z.testbit c k = false.
+  Proof. intros Hc Hk. pose proof N_pos. apply (small_bits_high N); [lia|exact Hc|exact Hk]. Qed.
+
+  Lemma code_le_mv a c : vcode m a -> vcode m c ->
+    (forall i, 0 <= i < D -> mv m i a <= mv m i c) -> a <= c.
+  Proof.
+    intros Ha Hc H. apply (code_le_of_coords m Hwf); try assumption.
+    intros i Hi. specialize (H i Hi). unfold mv in H.
+    pose proof (masked_le m Hwf a c i Hi) as E. lia.
+  Qed.
+
+  Lemma mod_dim b : 0 <= b -> 0 <= b mod D < D.
+  Proof. intros Hb. pose proof (D_pos m Hwf). apply Z.mod_pos_bound. lia. Qed.
+
+  Lemma mv_lt_bit b a c : 0 <= b < N -> agree_above b a c ->
+    Z.testbit a b = false -> Z.testbit c b = true -> mv m (b mod D) a < mv m (b mod D) c.
+  Proof.
+    intros Hb Hag Ha Hc. pose proof (mod_dim b ltac:(lia)) as Hd.
+    apply (lt_by_bit _ _ b); try (apply mv_nonneg; lia); try lia.
+    - intros k' Hk'. rewrite !mv_bits by lia. rewrite (Hag k' Hk'). reflexivity.
+    - rewrite mv_bits by lia. rewrite Ha. reflexivity.
+    - rewrite mv_bits by lia. rewrite Hc. replace (b mod D =? b mod D) with true by lia.
+      replace (b <? N) with true by lia. reflexivity.
+  Qed.
+
+  Lemma mv_le_dom i a c : 0 <= i < D ->
+    (forall k, 0 <= k < N -> k mod D = i -> Z.testbit a k = true -> Z.testbit c k = true) ->
+    mv m i a <= mv m i c.
+  Proof.
+    intros Hi H. apply le_by_dom; [apply mv_nonneg; lia|].
+    intros k Hk. rewrite !mv_bits by lia. intros Hb.
+    apply andb_prop in Hb. destruct Hb as [Hb1 Hb2]. rewrite Hb2, andb_true_r.
+    apply H; [lia|lia|exact Hb1].
+  Qed.
+
+  Lemma mv_eq i a c : 0 <= i < D ->
+    (forall k, 0 <= k < N -> k mod D = i -> Z.testbit a k = Z.testbit c k) ->
+    mv m i a = mv m i c.
+  Proof.
+    intros Hi H. apply Z.bits_inj'. intros k Hk. rewrite !mv_bits by lia.
+    destruct ((k mod D =? i) && (k <? N)) eqn:E; [|rewrite !andb_false_r; reflexivity].
+    rewrite !andb_true_r. apply H; lia.
+  Qed.
+
+  Lemma agree_above_weaken b b' a c : b <= b' -> agree_above b a c -> agree_above b' a c.
+  Proof. intros Hb H k Hk. apply H. lia. Qed.
+  Lemma agree_above_sym b a c : agree_above b a c -> agree_above b c a.
+  Proof. intros H k Hk. symmetry. apply H. exact Hk. Qed.
+  Lemma agree_above_trans b a c e : agree_above b a c -> agree_above b c e -> agree_above b a e.
+  Proof. intros H1 H2 k Hk. rewrite (H1 k Hk). apply H2. exact Hk. Qed.
+  Lemma agree_above_step b a c : agree_above b a c -> Z.testbit a b = Z.testbit c b -> agree_above (b - 1) a c.
+  Proof. intros H Hb k Hk. destruct (Z.eq_dec k b) as [->|Hne]; [exact Hb|apply H; lia]. Qed.
+
+  (* ---- bits of pdep on a dimension mask, and of load ---- *)
+  Lemma mod_pow2_testbit a n k : 0 <= n -> 0 <= k ->
+    Z.testbit (a mod 2 ^ n) k = (k <? n) && Z.testbit a k.
+  Proof.
+    intros Hn Hk. destruct (k <? n) eqn:E.
+    - rewrite Z.mod_pow2_bits_low by lia. reflexivity.
+    - rewrite Z.mod_pow2_bits_high by lia. reflexivity.
+  Qed.
+
+  Lemma pdep_fmask_bits src dim k : 0 <= dim < D -> 0 <= k ->
+    Z.testbit (pdep src (fmask m dim)) k = (k mod D =? dim) && (k <? N) && Z.testbit src (k / D).
+  Proof.
+    intros Hd Hk. pose proof (D_pos m Hwf) as HD. pose proof (F_pos m Hwf) as HF.
+    rewrite (pdep_fmask m Hwf) by lia.
+    destruct (split_pos D k HD Hk) as (E & Hq & Hr).
+    rewrite E at 1. rewrite shift_spread_bits by lia. rewrite Z2Nat.id by lia.
+    f_equal. f_equal.
+    destruct (Z_lt_ge_dec k N) as [Hlt|Hge].
+    - assert (k / D < F) by (apply Z.div_lt_upper_bound; lia). lia.
+    - assert (F <= k / D) by (apply Z.div_le_lower_bound; lia). lia.
+  Qed.
+
+  Lemma lo_set_bits bp j : 0 <= bp -> 0 <= j -> Z.testbit (lo_set bp) j = (j <? bp).
+  Proof.
+    intros Hb Hj. unfold lo_set. replace (2 ^ bp - 1) with (Z.ones bp) by (rewrite Z.ones_equiv; lia).
+    apply Z.testbit_ones_nonneg; lia.
+  Qed.
+
+  Lemma load_bits target pattern bp dim k : vcode m target -> 0 <= dim < D -> 0 <= bp -> 0 <= k ->
+    Z.testbit (load m target pattern bp dim) k =
+    (Z.testbit target k && negb ((k mod D =? dim) && (k <? N) && (k / D <? bp)))
+    || ((k mod D =? dim) && (k <? N) && Z.testbit pattern (k / D)).
+  Proof.
+    intros Ht Hd Hbp Hk. pose proof (D_pos m Hwf) as HD. pose proof (DF_le_T m Hwf) as HNT.
+    pose proof Hwf as (_ & _ & HT64). pose proof N_pos as HN.
+    assert (Hq : 0 <= k / D) by (apply Z.div_pos; lia).
+    unfold load. cbv zeta. rewrite (shl_selector m Hwf), (wrap64_fmask m Hwf) by lia.
+    unfold wrapT, wrapU. rewrite mod_pow2_testbit by lia.
+    rewrite Z.lor_spec, Z.land_spec, mod_pow2_testbit by lia.
+    rewrite Z.lnot_spec by lia. rewrite !pdep_fmask_bits by lia. rewrite lo_set_bits by lia.
+    destruct (Z_lt_ge_dec k N) as [Hlt|Hge].
+    - replace (k <? m_tbits m) with true by lia. replace (k <? 64) with true by lia.
+      cbn [andb]. reflexivity.
+    - rewrite (vcode_high target k Ht ltac:(lia)). replace (k <? N) with false by lia.
+      rewrite !andb_false_r. cbn [andb orb]. rewrite ?andb_false_r. reflexivity.
+  Qed.
+
+  Lemma F_le_T : F <= m_tbits m.
+  Proof. pose proof (D_pos m Hwf). pose proof (F_pos m Hwf). pose proof (DF_le_T m Hwf). nia. Qed.
+
+  Lemma bit_split b : 0 <= b < N -> b = (b / D) * D + b mod D /\ 0 <= b / D < F /\ 0 <= b mod D < D.
+  Proof.
+    intros Hb. pose proof (D_pos m Hwf) as HD.
+    destruct (split_pos D b HD ltac:(lia)) as (E & Hq & Hr).
+    assert (b / D < F) by (apply Z.div_lt_upper_bound; lia). lia.
+  Qed.
+
+  (* load(target, 1000.., bits, dim): set bit b, clear the lower bits of b's dimension *)
+  Lemma load_hi_bits zt b k : vcode m zt -> 0 <= b < N -> 0 <= k ->
+    Z.testbit (load m zt (wrapT m (2 ^ (b / D + 1 - 1))) (b / D + 1) (b mod D)) k =
+    if (k mod D =? b mod D) && (k <=? b) then (k =? b) else Z.testbit zt k.
+  Proof.
+    intros Ht Hb Hk. pose proof (D_pos m Hwf) as HD. pose proof F_le_T as HFT.
+    destruct (bit_split b Hb) as (Eb & Hj & Hdim).
+    destruct (split_pos D k HD Hk) as (Ek & Hq & Hr).
+    rewrite load_bits by (try exact Ht; lia).
+    replace (b / D + 1 - 1) with (b / D) by lia.
+    assert (E2 : wrapT m (2 ^ (b / D)) = 2 ^ (b / D)).
+    { unfold wrapT, wrapU. apply Z.mod_small. split; [apply Z.pow_nonneg; lia|].
+      apply Z.pow_lt_mono_r; lia. }
+    rewrite E2, Z.pow2_bits_eqb by lia.
+    destruct (k mod D =? b mod D) eqn:Ed; cbn [andb negb orb]; [|rewrite andb_true_r, orb_false_r; reflexivity].
+    assert (Edim : k mod D = b mod D) by lia.
+    destruct (Z_lt_ge_dec k N) as [Hlt|Hge].
+    - replace (k <? N) with true by lia. cbn [andb].
+      destruct (Z.compare_spec (k / D) (b / D)) as [Hc|Hc|Hc].
+      + assert (k = b) by nia. replace (k <=? b) with true by lia. replace (k =? b) with true by lia.
+        replace (b / D =? k / D) with true by lia. apply orb_true_r.
+      + assert (k < b) by nia. replace (k <=? b) with true by lia. replace (k =? b) with false by lia.
+        replace (b / D =? k / D) with false by lia. replace (k / D <? b / D + 1) with true by lia.
+        cbn [negb]. rewrite andb_false_r. reflexivity.
+      + assert (b < k) by nia. replace (k <=? b) with false by lia.
+        replace (b / D =? k / D) with false by lia. replace (k / D <? b / D + 1) with false by lia.
+        cbn [negb]. rewrite andb_true_r, orb_false_r. reflexivity.
+    - replace (k <? N) with false by lia. replace (k <=? b) with false by lia.
+      cbn [andb negb]. rewrite andb_true_r, orb_false_r. reflexivity.
+  Qed.
+
+  (* load(target, 0111.., bits, dim): clear bit b, set the lower bits of b's dimension *)
+  Lemma load_lo_bits zt b k : vcode m zt -> 0 <= b < N -> 0 <= k ->
+    Z.testbit (load m zt (lo_set (b / D + 1 - 1)) (b / D + 1) (b mod D)) k =
+    if (k mod D =? b mod D) && (k <=? b) then (k <? b) else Z.testbit zt k.
+  Proof.
+    intros Ht Hb Hk. pose proof (D_pos m Hwf) as HD.
+    destruct (bit_split b Hb) as (Eb & Hj & Hdim).
+    destruct (split_pos D k HD Hk) as (Ek & Hq & Hr).
+    rewrite load_bits by (try exact Ht; lia).
+    replace (b / D + 1 - 1) with (b / D) by lia. rewrite lo_set_bits by lia.
+    destruct (k mod D =? b mod D) eqn:Ed; cbn [andb negb orb]; [|rewrite andb_true_r, orb_false_r; reflexivity].
+    assert (Edim : k mod D = b mod D) by lia.
+    destruct (Z_lt_ge_dec k N) as [Hlt|Hge].
+    - replace (k <? N) with true by lia. cbn [andb].
+      destruct (Z.compare_spec (k / D) (b / D)) as [Hc|Hc|Hc].
+      + assert (k = b) by nia. replace (k <=? b) with true by lia. replace (k <? b) with false by lia.
+        replace (k / D <? b / D) with false by lia. replace (k / D <? b / D + 1) with true by lia.
+        cbn [negb]. rewrite andb_false_r. reflexivity.
+      + assert (k < b) by nia. replace (k <=? b) with true by lia. replace (k <? b) with true by lia.
+        replace (k / D <? b / D) with true by lia. apply orb_true_r.
+      + assert (b < k) by nia. replace (k <=? b) with false by lia.
+        replace (k / D <? b / D) with false by lia. replace (k / D <? b / D + 1) with false by lia.
+        cbn [negb]. rewrite andb_true_r, orb_false_r. reflexivity.
+    - replace (k <? N) with false by lia. replace (k <=? b) with false by lia.
+      cbn [andb negb]. rewrite andb_true_r, orb_false_r. reflexivity.
+  Qed.
+
+  Lemma load_vcode zt pattern bp dim : vcode m zt -> 0 <= dim < D -> 0 <= bp ->
+    vcode m (load m zt pattern bp dim).
+  Proof.
+    intros Ht Hd Hbp. pose proof N_pos as HN. pose proof (m_tbits m) as T.
+    assert (Hnn : 0 <= load m zt pattern bp dim).
+    { unfold load, wrapT, wrapU. cbv zeta. apply Z.mod_pos_bound. apply Z.pow_pos_nonneg; [lia|].
+      pose proof F_le_T. pose proof (F_pos m Hwf). lia. }
+    split; [exact Hnn|]. apply bits_bound; [lia|exact Hnn|].
+    intros k Hk. rewrite load_bits by (try exact Ht; lia).
+    rewrite (vcode_high zt k Ht Hk). replace (k <? N) with false by lia.
+    rewrite !andb_false_r. reflexivity.
+  Qed.
+
+  Lemma bigmin_loop_cons b rest xd zn zx bm :
+    bigmin_loop m (b :: rest) xd zn zx bm =
+    match Z.testbit xd b, Z.testbit zn b, Z.testbit zx b with
+    | false, false, true =>
+        bigmin_loop m rest xd zn (load m zx (lo_set (b / D + 1 - 1)) (b / D + 1) (b mod D))
+                    (load m zn (wrapT m (2 ^ (b / D + 1 - 1))) (b / D + 1) (b mod D))
+    | false, true, true => zn
+    | true, false, false => bm
+    | true, false, true =>
+        bigmin_loop m rest xd (load m zn (wrapT m (2 ^ (b / D + 1 - 1))) (b / D + 1) (b mod D)) zx bm
+    | _, _, _ => bigmin_loop m rest xd zn zx bm
+    end.
+  Proof.
+    cbn [bigmin_loop]. unfold bit.
+    destruct (Z.testbit xd b), (Z.testbit zn b), (Z.testbit zx b); reflexivity.
+  Qed.
+
+  Section Inv.
+    Variables x zmin0 zmax0 : Z.
+    Hypothesis Hx : vcode m x.
+    Hypothesis Hzn0 : vcode m zmin0.
+    Hypothesis Hzx0 : vcode m zmax0.
+    Local Notation inbox0 := (inbox m zmin0 zmax0).
+
+    Definition cand (b c : Z) : Prop :=
+      inbox0 c /\ exists k, b < k /\ Z.testbit x k = false /\ Z.testbit c k = true /\ agree_above k c x.
+    Definition least_cand (b bm : Z) : Prop :=
+      (forall c, vcode m c -> cand b c -> bm <= c) /\
+      ((exists c, vcode m c /\ cand b c) -> vcode m bm /\ cand b bm).
+    Definition Inv (b zn zx bm : Z) : Prop :=
+      vcode m zn /\ vcode m zx /\ agree_above b zn x /\ agree_above b zx x /\
+      (forall i, 0 <= i < D -> mv m i zn <= mv m i zx) /\
+      (forall c, agree_above b c x -> (inbox0 c <-> inbox m zn zx c)) /\
+      least_cand b bm.
+    Definition Result (r : Z) : Prop :=
+      x < r /\ inbox0 r /\ forall c, vcode m c -> x < c -> inbox0 c -> r <= c.
+
+    Lemma cand_mono b c : cand b c -> cand (b - 1) c.
+    Proof. intros (Hin & k & Hk & H1 & H2 & H3). split; [exact Hin|]. exists k. repeat split; try assumption. lia. Qed.
+
+    Lemma cand_lt b c : -1 <= b -> vcode m c -> cand b c -> x < c.
+    Proof.
+      intros Hb Hc (Hin & k & Hk & H1 & H2 & H3).
+      apply (lt_by_bit x c k); [apply Hx|apply Hc|lia| |exact H1|exact H2].
+      intros k' Hk'. symmetry. apply H3. exact Hk'.
+    Qed.
+
+    Lemma least_cand_step b bm :
+      (forall c, vcode m c -> cand (b - 1) c -> cand b c) -> least_cand b bm -> least_cand (b - 1) bm.
+    Proof.
+      intros Hno [H1 H2]. split.
+      - intros c Hc Hcand. apply H1; [exact Hc|apply Hno; assumption].
+      - intros (c & Hc & Hcand). destruct (H2 (ex_intro _ c (conj Hc (Hno c Hc Hcand)))) as [Hv Hb].
+        split; [exact Hv|apply cand_mono; exact Hb].
+    Qed.
+
+    Lemma finish b bm : -1 <= b -> least_cand b bm ->
+      (forall c, vcode m c -> x < c -> inbox0 c -> cand b c) ->
+      (exists c0, vcode m c0 /\ x < c0 /\ inbox0 c0) -> Result bm.
+    Proof.
+      intros Hb [H1 H2] Hall (c0 & Hc0 & Hlt & Hin0).
+      destruct (H2 (ex_intro _ c0 (conj Hc0 (Hall c0 Hc0 Hlt Hin0)))) as [Hv Hcb].
+      split; [apply (cand_lt b); assumption|]. split; [apply Hcb|].
+      intros c Hc Hxc Hin. apply H1; [exact Hc|apply Hall; assumption].
+    Qed.
+
+    Lemma step_imposs b zn zx bm : 0 <= b < N -> Inv b zn zx bm ->
+      Z.testbit zn b = true -> Z.testbit zx b = false -> False.
+    Proof.
+      intros Hb (Hvn & Hvx & An & Ax & HB & HC & HL) Hn Hz.
+      pose proof (mod_dim b ltac:(lia)) as Hd.
+      assert (Hag : agree_above b zx zn) by (eapply agree_above_trans; [exact Ax|apply agree_above_sym; exact An]).
+      pose proof (mv_lt_bit b zx zn Hb Hag Hz Hn). specialize (HB (b mod D) Hd). lia.
+    Qed.
+
+    Lemma step_same b zn zx bm : 0 <= b < N -> Inv b zn zx bm ->
+      Z.testbit zn b = Z.testbit x b -> Z.testbit zx b = Z.testbit x b -> Inv (b - 1) zn zx bm.
+    Proof.
+      intros Hb (Hvn & Hvx & An & Ax & HB & HC & HL) En Ez.
+      pose proof (mod_dim b ltac:(lia)) as Hd.
+      split; [exact Hvn|]. split; [exact Hvx|].
+      split; [apply agree_above_step; assumption|]. split; [apply agree_above_step; assumption|].
+      split; [exact HB|]. split.
+      - intros c Hc. apply HC. apply (agree_above_weaken (b - 1)); [lia|exact Hc].
+      - apply least_cand_step; [|exact HL].
+        intros c Hc (Hin & k & Hk & H1 & H2 & H3).
+        destruct (Z.eq_dec k b) as [->|Hne]; [|split; [exact Hin|exists k; repeat split; try assumption; lia]].
+        exfalso. assert (Hag : agree_above b zx c).
+        { eapply agree_above_trans; [exact Ax|apply agree_above_sym; exact H3]. }
+        pose proof (mv_lt_bit b zx c Hb Hag ltac:(congruence) H2) as Hlt.
+        apply (HC c H3) in Hin. specialize (Hin (b mod D) Hd). lia.
+    Qed.
+
+    Local Notation ldhi z b := (load m z (wrapT m (2 ^ (b / D + 1 - 1))) (b / D + 1) (b mod D)).
+    Local Notation ldlo z b := (load m z (lo_set (b / D + 1 - 1)) (b / D + 1) (b mod D)).
+
+    Lemma ldhi_above z b : vcode m z -> 0 <= b < N -> agree_above b (ldhi z b) z.
+    Proof.
+      intros Hz Hb k Hk. rewrite load_hi_bits by (try exact Hz; lia).
+      replace (k <=? b) with false by lia. rewrite andb_false_r. reflexivity.
+    Qed.
+    Lemma ldlo_above z b : vcode m z -> 0 <= b < N -> agree_above b (ldlo z b) z.
+    Proof.
+      intros Hz Hb k Hk. rewrite load_lo_bits by (try exact Hz; lia).
+      replace (k <=? b) with false by lia. rewrite andb_false_r. reflexivity.
+    Qed.
+    Lemma ldhi_at z b : vcode m z -> 0 <= b < N -> Z.testbit (ldhi z b) b = true.
+    Proof.
+      intros Hz Hb. rewrite load_hi_bits by (try exact Hz; lia).
+      replace (b mod D =? b mod D) with true by lia. replace (b <=? b) with true by lia. cbn [andb]. lia.
+    Qed.
+    Lemma ldlo_at z b : vcode m z -> 0 <= b < N -> Z.testbit (ldlo z b) b = false.
+    Proof.
+      intros Hz Hb. rewrite load_lo_bits by (try exact Hz; lia).
+      replace (b mod D =? b mod D) with true by lia. replace (b <=? b) with true by lia. cbn [andb]. lia.
+    Qed.
+
+    Lemma mv_ldhi_other z b i : vcode m z -> 0 <= b < N -> 0 <= i < D -> i <> b mod D ->
+      mv m i (ldhi z b) = mv m i z.
+    Proof.
+      intros Hz Hb Hi Hne. apply mv_eq; [lia|]. intros k Hk Hki.
+      rewrite load_hi_bits by (try exact Hz; lia). replace (k mod D =? b mod D) with false by lia. reflexivity.
+    Qed.
+    Lemma mv_ldlo_other z b i : vcode m z -> 0 <= b < N -> 0 <= i < D -> i <> b mod D ->
+      mv m i (ldlo z b) = mv m i z.
+    Proof.
+      intros Hz Hb Hi Hne. apply mv_eq; [lia|]. intros k Hk Hki.
+      rewrite load_lo_bits by (try exact Hz; lia). replace (k mod D =? b mod D) with false by lia. reflexivity.
+    Qed.
+
+    Lemma mv_ldhi_dom z b c : vcode m z -> 0 <= b < N -> agree_above b z c -> Z.testbit c b = true ->
+      mv m (b mod D) (ldhi z b) <= mv m (b mod D) c.
+    Proof.
+      intros Hz Hb Hag Hc. pose proof (mod_dim b ltac:(lia)) as Hd.
+      apply mv_le_dom; [lia|]. intros k Hk Hki. rewrite load_hi_bits by (try exact Hz; lia).
+      replace (k mod D =? b mod D) with true by lia. cbn [andb].
+      destruct (k <=? b) eqn:E.
+      - intros Hkb. assert (k = b) by lia. subst k. exact Hc.
+      - rewrite (Hag k ltac:(lia)). tauto.
+    Qed.
+    Lemma mv_ldlo_dom z b c : vcode m z -> 0 <= b < N -> agree_above b z c -> Z.testbit c b = false ->
+      mv m (b mod D) c <= mv m (b mod D) (ldlo z b).
+    Proof.
+      intros Hz Hb Hag Hc. pose proof (mod_dim b ltac:(lia)) as Hd.
+      apply mv_le_dom; [lia|]. intros k Hk Hki. rewrite load_lo_bits by (try exact Hz; lia).
+      replace (k mod D =? b mod D) with true by lia. cbn [andb].
+      destruct (k <=? b) eqn:E.
+      - intros Hck. destruct (Z.eq_dec k b) as [->|Hne]; [congruence|lia].
+      - rewrite (Hag k ltac:(lia)). tauto.
+    Qed.
+
+    Lemma step_5 b zn zx bm : 0 <= b < N -> Inv b zn zx bm ->
+      Z.testbit x b = true -> Z.testbit zn b = false -> Z.testbit zx b = true ->
+      Inv (b - 1) (ldhi zn b) zx bm.
+    Proof.
+      intros Hb (Hvn & Hvx & An & Ax & HB & HC & HL) Ex En Ez.
+      pose proof (mod_dim b ltac:(lia)) as Hd. destruct (bit_split b Hb) as (_ & Hj & _).
+      assert (Anx : agree_above b zn zx) by (eapply agree_above_trans; [exact An|apply agree_above_sym; exact Ax]).
+      split; [apply load_vcode; try assumption; lia|]. split; [exact Hvx|].
+      split.
+      { apply agree_above_step.
+        - eapply agree_above_trans; [apply ldhi_above; assumption|exact An].
+        - rewrite ldhi_at by assumption. congruence. }
+      split; [apply agree_above_step; [exact Ax|congruence]|].
+      split.
+      { intros i Hi. destruct (Z.eq_dec i (b mod D)) as [->|Hne].
+        - apply mv_ldhi_dom; assumption.
+        - rewrite mv_ldhi_other by assumption. apply HB. exact Hi. }
+      split.
+      - intros c Hc.
+        assert (Hc' : agree_above b c x) by (apply (agree_above_weaken (b - 1)); [lia|exact Hc]).
+        assert (Hcb : Z.testbit c b = true) by (rewrite (Hc b ltac:(lia)); exact Ex).
+        assert (Anc : agree_above b zn c) by (eapply agree_above_trans; [exact An|apply agree_above_sym; exact Hc']).
+        rewrite (HC c Hc'). unfold inbox. split; intros H i Hi; specialize (H i Hi).
+        + destruct (Z.eq_dec i (b mod D)) as [->|Hne].
+          * pose proof (mv_ldhi_dom zn b c Hvn Hb Anc Hcb). lia.
+          * rewrite mv_ldhi_other by assumption. exact H.
+        + destruct (Z.eq_dec i (b mod D)) as [->|Hne].
+          * pose proof (mv_lt_bit b zn c Hb Anc En Hcb). lia.
+          * rewrite mv_ldhi_other in H by assumption. exact H.
+      - apply least_cand_step; [|exact HL].
+        intros c Hc (Hin & k & Hk & H1 & H2 & H3).
+        destruct (Z.eq_dec k b) as [->|Hne]; [congruence|].
+        split; [exact Hin|exists k; repeat split; try assumption; lia].
+    Qed.
+
+    Lemma step_1 b zn zx bm : 0 <= b < N -> Inv b zn zx bm ->
+      Z.testbit x b = false -> Z.testbit zn b = false -> Z.testbit zx b = true ->
+      Inv (b - 1) zn (ldlo zx b) (ldhi zn b).
+    Proof.
+      intros Hb (Hvn & Hvx & An & Ax & HB & HC & HL) Ex En Ez.
+      pose proof (mod_dim b ltac:(lia)) as Hd. destruct (bit_split b Hb) as (_ & Hj & _).
+      assert (Anx : agree_above b zn zx) by (eapply agree_above_trans; [exact An|apply agree_above_sym; exact Ax]).
+      assert (Axn : agree_above b zx zn) by (apply agree_above_sym; exact Anx).
+      set (bm' := ldhi zn b). set (zx' := ldlo zx b).
+      assert (Vb : vcode m bm') by (apply load_vcode; try assumption; lia).
+      assert (Ab : agree_above b bm' x) by (eapply agree_above_trans; [apply ldhi_above; assumption|exact An]).
+      assert (Bb : Z.testbit bm' b = true) by (apply ldhi_at; assumption).
+      split; [exact Hvn|]. split; [apply load_vcode; try assumption; lia|].
+      split; [apply agree_above_step; [exact An|congruence]|].
+      split.
+      { apply agree_above_step.
+        - eapply agree_above_trans; [apply ldlo_above; assumption|exact Ax].
+        - unfold zx'. rewrite ldlo_at by assumption. congruence. }
+      split.
+      { intros i Hi. unfold zx'. destruct (Z.eq_dec i (b mod D)) as [->|Hne].
+        - apply mv_ldlo_dom; assumption.
+        - rewrite mv_ldlo_other by assumption. apply HB. exact Hi. }
+      split.
+      - intros c Hc.
+        assert (Hc' : agree_above b c x) by (apply (agree_above_weaken (b - 1)); [lia|exact Hc]).
+        assert (Hcb : Z.testbit c b = false) by (rewrite (Hc b ltac:(lia)); exact Ex).
+        assert (Axc : agree_above b zx c) by (eapply agree_above_trans; [exact Ax|apply agree_above_sym; exact Hc']).
+        rewrite (HC c Hc'). unfold inbox, zx'. split; intros H i Hi; specialize (H i Hi).
+        + destruct (Z.eq_dec i (b mod D)) as [->|Hne].
+          * pose proof (mv_ldlo_dom zx b c Hvx Hb Axc Hcb). lia.
+          * rewrite mv_ldlo_other by assumption. exact H.
+        + destruct (Z.eq_dec i (b mod D)) as [->|Hne].
+          * pose proof (mv_lt_bit b c zx Hb (agree_above_sym _ _ _ Axc) Hcb Ez). lia.
+          * rewrite mv_ldlo_other in H by assumption. exact H.
+      - assert (Hcand : cand (b - 1) bm').
+        { split.
+          - apply (HC bm' Ab). intros i Hi. unfold bm' in *.
+            destruct (Z.eq_dec i (b mod D)) as [->|Hne].
+            + pose proof (mv_lt_bit b zn _ Hb (agree_above_sym _ _ _ (ldhi_above zn b Hvn Hb)) En Bb).
+              pose proof (mv_ldhi_dom zn b zx Hvn Hb Anx Ez). lia.
+            + rewrite mv_ldhi_other by assumption. specialize (HB i Hi). lia.
+          - exists b. split; [lia|]. split; [exact Ex|]. split; [exact Bb|exact Ab]. }
+        split; [|intros _; split; assumption].
+        intros c Hc (Hin & k & Hk & H1 & H2 & H3).
+        destruct (Z.eq_dec k b) as [->|Hne].
+        + apply (HC c H3) in Hin.
+          assert (Anc : agree_above b zn c) by (eapply agree_above_trans; [exact An|apply agree_above_sym; exact H3]).
+          apply code_le_mv; [exact Vb|exact Hc|]. intros i Hi. unfold bm'.
+          destruct (Z.eq_dec i (b mod D)) as [->|Hne].
+          * apply mv_ldhi_dom; assumption.
+          * rewrite mv_ldhi_other by assumption. apply Hin. exact Hi.
+        + assert (bm' < c); [|lia].
+          apply (lt_by_bit bm' c k); [apply Vb|apply Hc|lia| | |exact H2].
+          * intros k' Hk'. rewrite (Ab k' ltac:(lia)). symmetry. apply H3. exact Hk'.
+          * rewrite (Ab k ltac:(lia)). exact H1.
+    Qed.
+
+    Lemma final_3 b zn zx bm : 0 <= b < N -> Inv b zn zx bm ->
+      Z.testbit x b = false -> Z.testbit zn b = true -> Z.testbit zx b = true -> Result zn.
+    Proof.
+      intros Hb (Hvn & Hvx & An & Ax & HB & HC & HL) Ex En Ez.
+      split; [|split].
+      - apply (lt_by_bit x zn b); [apply Hx|apply Hvn|lia| |exact Ex|exact En].
+        intros k' Hk'. symmetry. apply An. exact Hk'.
+      - apply (HC zn An). intros i Hi. specialize (HB i Hi). lia.
+      - intros c Hc Hxc Hin. destruct (hdb x c ltac:(destruct Hx; lia)) as (k & Hk & H1 & H2 & H3).
+        destruct (Z_lt_ge_dec b k) as [Hbk|Hkb].
+        + assert (zn < c); [|lia].
+          apply (lt_by_bit zn c k); [apply Hvn|apply Hc|lia| | |exact H2].
+          * intros k' Hk'. rewrite (An k' ltac:(lia)). apply H3. exact Hk'.
+          * rewrite (An k Hbk). exact H1.
+        + assert (Hag : agree_above b c x) by (intros k' Hk'; symmetry; apply H3; lia).
+          apply (HC c Hag) in Hin. apply code_le_mv; [exact Hvn|exact Hc|].
+          intros i Hi. apply Hin. exact Hi.
+    Qed.
+
+    Lemma final_4 b zn zx bm : 0 <= b < N -> Inv b zn zx bm ->
+      Z.testbit x b = true -> Z.testbit zn b = false -> Z.testbit zx b = false ->
+      (exists c0, vcode m c0 /\ x < c0 /\ inbox0 c0) -> Result bm.
+    Proof.
+      intros Hb (Hvn & Hvx & An & Ax & HB & HC & HL) Ex En Ez Hex.
+      pose proof (mod_dim b ltac:(lia)) as Hd.
+      apply (finish b); [lia|exact HL| |exact Hex].
+      intros c Hc Hxc Hin. destruct (hdb x c ltac:(destruct Hx; lia)) as (k & Hk & H1 & H2 & H3).
+      destruct (Z_lt_ge_dec b k) as [Hbk|Hkb].
+      - split; [exact Hin|]. exists k. repeat split; try assumption.
+        intros k' Hk'. symmetry. apply H3. exact Hk'.
+      - exfalso. destruct (Z.eq_dec k b) as [->|Hne]; [congruence|].
+        assert (Hag : agree_above b c x) by (intros k' Hk'; symmetry; apply H3; lia).
+        assert (Hcb : Z.testbit c b = true) by (rewrite <- (H3 b ltac:(lia)); exact Ex).
+        apply (HC c Hag) in Hin. specialize (Hin (b mod D) Hd).
+        assert (Axc : agree_above b zx c) by (eapply agree_above_trans; [exact Ax|apply agree_above_sym; exact Hag]).
+        pose proof (mv_lt_bit b zx c Hb Axc Ez Hcb). lia.
+    Qed.
+
+    Lemma final_end zn zx bm : Inv (-1) zn zx bm ->
+      (exists c0, vcode m c0 /\ x < c0 /\ inbox0 c0) -> Result bm.
+    Proof.
+      intros (Hvn & Hvx & An & Ax & HB & HC & HL) Hex.
+      apply (finish (-1)); [lia|exact HL| |exact Hex].
+      intros c Hc Hxc Hin. destruct (hdb x c ltac:(destruct Hx; lia)) as (k & Hk & H1 & H2 & H3).
+      split; [exact Hin|]. exists k. split; [lia|]. repeat split; try assumption.
+      intros k' Hk'. symmetry. apply H3. exact Hk'.
+    Qed.
+
+    Lemma zseq_snoc : forall n s, zseq s (S n) = zseq s n ++ [s + Z.of_nat n].
+    Proof.
+      induction n as [|n IH]; intros s.
+      - cbn [zseq app]. f_equal. lia.
+      - change (zseq s (S (S n))) with (s :: zseq (s + 1) (S n)). rewrite IH.
+        cbn [zseq app]. do 2 f_equal. f_equal. lia.
+    Qed.
+    Lemma rev_zseq_S n : rev (zseq 0 (S n)) = Z.of_nat n :: rev (zseq 0 n).
+    Proof. rewrite zseq_snoc, rev_app_distr. reflexivity. Qed.
+
+    Lemma bigmin_loop_correct : forall n zn zx bm, Z.of_nat n <= N ->
+      Inv (Z.of_nat n - 1) zn zx bm ->
+      (exists c0, vcode m c0 /\ x < c0 /\ inbox0 c0) ->
+      Result (bigmin_loop m (rev (zseq 0 n)) x zn zx bm).
+    Proof.
+      induction n as [|n IH]; intros zn zx bm Hn HI Hex.
+      - cbn [zseq rev bigmin_loop]. apply (final_end zn zx); assumption.
+      - rewrite rev_zseq_S, bigmin_loop_cons.
+        replace (Z.of_nat (S n) - 1) with (Z.of_nat n) in HI by lia.
+        assert (Hb : 0 <= Z.of_nat n < N) by lia.
+        assert (Hn' : Z.of_nat n <= N) by lia.
+        destruct (Z.testbit x (Z.of_nat n)) eqn:Ex, (Z.testbit zn (Z.of_nat n)) eqn:En,
+                 (Z.testbit zx (Z.of_nat n)) eqn:Ez.
+        + apply IH; [exact Hn'| |exact Hex]. apply step_same; [exact Hb|exact HI|congruence|congruence].
+        + exfalso. exact (step_imposs _ _ _ _ Hb HI En Ez).
+        + apply IH; [exact Hn'| |exact Hex]. apply step_5; assumption.
+        + apply (final_4 (Z.of_nat n) zn zx); assumption.
+        + apply (final_3 (Z.of_nat n) zn zx bm); assumption.
+        + exfalso. exact (step_imposs _ _ _ _ Hb HI En Ez).
+        + apply IH; [exact Hn'| |exact Hex]. apply (step_1 _ zn zx bm); assumption.
+        + apply IH; [exact Hn'| |exact Hex]. apply step_same; [exact Hb|exact HI|congruence|congruence].
+    Qed.
+
+    Lemma bits_hi_pow v k : 0 <= v -> bits_hi v < k -> v < 2 ^ k.
+    Proof.
+      intros Hv Hk. unfold bits_hi in Hk. destruct (v <=? 0) eqn:E.
+      - assert (v = 0) by lia. subst v. apply Z.pow_pos_nonneg; lia.
+      - apply Z.log2_lt_pow2; lia.
+    Qed.
+    Lemma bits_hi_above v k : 0 <= v -> bits_hi v < k -> Z.testbit v k = false.
+    Proof.
+      intros Hv Hk. assert (0 <= bits_hi v) by (unfold bits_hi; destruct (v <=? 0); [lia|apply Z.log2_nonneg]).
+      apply (small_bits_high k); [lia|split; [lia|apply bits_hi_pow; assumption]|lia].
+    Qed.
+    Lemma bits_hi_lt_N v : vcode m v -> 0 <= bits_hi v < N.
+    Proof.
+      intros Hv. pose proof N_pos. unfold bits_hi. destruct (v <=? 0) eqn:E; [lia|].
+      split; [apply Z.log2_nonneg|]. apply Z.log2_lt_pow2; [lia|apply Hv].
+    Qed.
+
+    Theorem bigmin_correct_codes :
+      (forall i, 0 <= i < D -> mv m i zmin0 <= mv m i zmax0) ->
+      (exists c0, vcode m c0 /\ x < c0 /\ inbox0 c0) ->
+      Result (bigmin m x zmin0 zmax0).
+    Proof.
+      intros HB Hex. unfold bigmin. cbv zeta.
+      set (hb := Z.max (Z.max (bits_hi x) (bits_hi zmin0)) (bits_hi zmax0)).
+      pose proof (bits_hi_lt_N x Hx) as B1. pose proof (bits_hi_lt_N zmin0 Hzn0) as B2.
+      pose proof (bits_hi_lt_N zmax0 Hzx0) as B3.
+      assert (Hhb : 0 <= hb < N) by (unfold hb; lia).
+      apply bigmin_loop_correct; [lia| |exact Hex].
+      replace (Z.of_nat (Z.to_nat (hb + 1)) - 1) with hb by lia.
+      split; [exact Hzn0|]. split; [exact Hzx0|].
+      split.
+      { intros k Hk. rewrite (bits_hi_above zmin0 k), (bits_hi_above x k); try reflexivity;
+          try (unfold hb in Hk; lia); [apply Hx|apply Hzn0]. }
+      split.
+      { intros k Hk. rewrite (bits_hi_above zmax0 k), (bits_hi_above x k); try reflexivity;
+          try (unfold hb in Hk; lia); [apply Hx|apply Hzx0]. }
+      split; [exact HB|]. split; [intros c _; tauto|].
+      assert (Hno : forall c, vcode m c -> cand hb c -> False).
+      { intros c Hc (Hin & k & Hk & H1 & H2 & H3).
+        assert (Hle : c <= zmax0) by (apply code_le_mv; [exact Hc|exact Hzx0|intros i Hi; apply Hin; exact Hi]).
+        assert (Hlt : zmax0 < 2 ^ k) by (apply bits_hi_pow; [apply Hzx0|unfold hb in Hk; lia]).
+        rewrite (small_bits_high k c k) in H2; [discriminate|lia|split; [apply Hc|lia]|lia]. }
+      split.
+      - intros c Hc Hcand. exfalso. exact (Hno c Hc Hcand).
+      - intros (c & Hc & Hcand). exfalso. exact (Hno c Hc Hcand).
+    Qed.
+  End Inv.
+End BM.
+
+(* ---- the general theorem: BIGMIN is correct for every valid configuration and every width ---- *)
+Theorem bigmin_spec_general m : wf_mcfg m -> bigmin_spec m.
+Proof.
+  intros Hwf lo hi x Ll Lh Cl Ch Hle Hx Hnot.
+  pose proof (encode_range m Hwf lo Ll) as Vn. pose proof (encode_range m Hwf hi Lh) as Vx.
+  set (zmin := encode m lo) in *. set (zmax := encode m hi) in *.
+  assert (Vxx : vcode m x) by (unfold vcode; lia).
+  assert (Hzz : inbox m zmin zmax zmax).
+  { apply (box_inbox m Hwf). apply (box_zcontains_spec_wf m Hwf); try assumption.
+    split; [exact Hle|apply Forall2_le_refl]. }
+  assert (Hne : x <> zmax).
+  { intros ->. apply (box_inbox m Hwf) in Hzz. congruence. }
+  assert (Hex : exists c0, vcode m c0 /\ x < c0 /\ inbox m zmin zmax c0).
+  { exists zmax. split; [exact Vx|]. split; [lia|exact Hzz]. }
+  assert (HB : forall i, 0 <= i < m_dims m -> mv m i zmin <= mv m i zmax).
+  { intros i Hi. apply Hzz. exact Hi. }
+  destruct (bigmin_correct_codes m Hwf x zmin zmax Vxx Vn Vx HB Hex) as (R1 & R2 & R3).
+  cbv zeta. split; [exact R1|]. split; [apply (box_inbox m Hwf); exact R2|].
+  intros c Hxc Hc. apply (box_inbox m Hwf) in Hc.
+  destruct (Z_lt_ge_dec c (2 ^ (m_dims m * field_bits m))) as [Hlt|Hge].
+  - apply R3; [unfold vcode; lia|exact Hxc|exact Hc].
+  - pose proof (R3 zmax Vx ltac:(lia) Hzz). unfold vcode in Vx. lia.
+Qed.
+
+Corollary bigmin_spec_w_general m w : wf_mcfg m -> 0 <= w <= field_bits m -> bigmin_spec_w m w.
+Proof.
+  intros Hwf Hw lo hi x Ll Lh Cl Ch. apply (bigmin_spec_general m Hwf); try assumption.
+  - eapply Forall_impl; [|exact Cl]. intros a Ha. cbv beta in *.
+    assert (2 ^ w <= 2 ^ field_bits m) by (apply Z.pow_le_mono_r; lia). lia.
+  - eapply Forall_impl; [|exact Ch]. intros a Ha. cbv beta in *.
+    assert (2 ^ w <= 2 ^ field_bits m) by (apply Z.pow_le_mono_r; lia). lia.
+Qed.
+
+Print Assumptions bigmin_spec_general.
